@@ -45,7 +45,7 @@ class C04(Property):
             "at L/2 and L/2±1, ends equal to L; non-trivial = locations neither identical nor far apart (distance < L/4) or "
             "an origin-spanning operand/result; distinct by canonical input")
     TRUSTED = ["Biopython CompoundLocation.start/end/strand/__len__, `int in SimpleLocation`, str(location)",
-               "fuzzy positions (<5, >9, UnknownPosition), operator='order' and mixed-strand compounds are outside the modelled domain",
+               "fuzzy positions (<5, >9, UnknownPosition) and mixed-strand compounds are outside the modelled domain; the operator (join/order) is modelled for the textual form only",
                "offset_location called with wrap_point=0 explicitly (conflated with None) is not generated"]
 
     # ------------------------------------------------------------------ generators
@@ -71,11 +71,18 @@ class C04(Property):
         if circular and n >= 3 and r < 0.25:
             x = rng.randrange(1, n)
             y = rng.randrange(1, x + 1)
-            if rng.random() < 0.3 and x - y >= 2 and not area:   # multi-part bridging
-                mid = rng.randrange(y, x)
+            if rng.random() < 0.4 and not area:   # several exons on either side of the origin
+                def exons(lo: int, hi: int) -> List[List[int]]:
+                    k = rng.choice([1, 2, 2, 3])
+                    if hi - lo < 2 * k:
+                        return [[lo, hi]]
+                    cuts = sorted(rng.sample(range(lo + 1, hi), 2 * k - 2)) if k > 1 else []
+                    cuts = [lo] + cuts + [hi]
+                    return [[cuts[i], cuts[i + 1]] for i in range(0, len(cuts), 2) if cuts[i] < cuts[i + 1]]
+                lower, upper = exons(0, y), exons(x, n)
                 if strand == -1:
-                    return compound([[0, y, -1], [x, n, -1]]) if mid == y else compound([[0, y, -1], [x, n, -1]])
-                return compound([[x, n, strand], [0, y, strand]])
+                    return compound([[a, b, -1] for a, b in reversed(lower)] + [[a, b, -1] for a, b in reversed(upper)])
+                return compound([[a, b, strand] for a, b in upper] + [[a, b, strand] for a, b in lower])
             if strand == -1:
                 return compound([[0, y, -1], [x, n, -1]])
             return compound([[x, n, strand], [0, y, strand]])
@@ -108,7 +115,7 @@ class C04(Property):
         # strings, ordering
         for _ in range(2000 if deep else 300):
             n = self.boundary_len(rng)
-            yield {"f": "string", "a": self.rand_loc(rng, n, rng.random() < 0.5)}
+            yield {"f": "string", "a": self.rand_loc(rng, n, rng.random() < 0.5), "op": rng.choice(["join", "join", "order"])}
 
     def random_case(self, rng: random.Random) -> Dict[str, Any]:
         n = self.boundary_len(rng)
@@ -200,6 +207,8 @@ class C04(Property):
             yield {"f": "split", "a": a}
             yield {"f": "forwards", "a": a}
             yield {"f": "string", "a": a}
+            if a["c"]:
+                yield {"f": "string", "a": a, "op": "order"}
             for k in range(-n, n + 1):
                 yield {"f": "offset", "a": a, "k": k, "wrap": n}
             for d in range(0, n + 2):
@@ -262,8 +271,12 @@ class C04(Property):
             if f == "redundant":
                 return {"v": common.location_json(loc.remove_redundant_exons(a))}
             if f == "string":
+                if case.get("op", "join") != "join" and case["a"]["c"]:
+                    a = loc.CompoundLocation(list(a.parts), operator=case["op"])
                 text = str(a)
-                return {"v": text, "back": common.location_json(loc.location_from_string(text))}
+                back = loc.location_from_string(text)
+                return {"v": text, "back": common.location_json(back), "back_op": getattr(back, "operator", None),
+                        "equal": bool(back == a)}
         except Exception as exc:  # pylint: disable=broad-except
             return {"err": err_kind(exc), "msg": str(exc)[:200]}
         raise ValueError(f)
@@ -309,7 +322,7 @@ class C04(Property):
         else:
             corr = kind == "ok" and mval == obs["v"]
             if f == "string":
-                corr = corr and drv.get("back") == obs["back"]
+                corr = corr and drv.get("back") == obs["back"] and drv.get("back_op") == obs["back_op"]
         detail = "" if corr else f"model {drv['model']} vs implementation {obs}"
         # ---- spec on the implementation's output
         spec_ok = True
@@ -358,7 +371,8 @@ class C04(Property):
                            and oi["strand"] == drv["strand"] and oi["inside"] and oi["disjoint"])
                 nontrivial = case["k"] != 0
             elif f == "string":
-                spec_ok = obs["back"] == case["a"]
+                spec_ok = (obs["back"] == case["a"] and obs["equal"]
+                           and obs["back_op"] == (case.get("op", "join") if case["a"]["c"] else None))
                 nontrivial = True
             else:
                 nontrivial = True
